@@ -467,6 +467,8 @@ attached (the out-of-band list after the constructor returned, as descriptor num
 terms (types, spec values, Python items; all empty for a message without signature). -/
 structure SentFd where
   msg : Msg.Msg PyVal
+  /-- the constructor call that made `msg` -/
+  call : Call PyVal
   ds : List Nat
   ts : List Ty
   vs : List Val
@@ -479,22 +481,22 @@ def SentFd.body (x : SentFd) : List BV := bvOfFields x.ds x.vs x.ts
 sender model `callRemote` lays them out. -/
 def SentFd.toMsg (x : SentFd) : Msg := sentMsg x.msg.raw x.body
 
-/-- `x` was produced by a constructor call of C03's model under the premises of C03's `parse_marshal_c01` /
+/-- `x.msg` was produced by the constructor call `x.call` of C03's model under the premises of C03's `parse_marshal_c01` /
 `parse_marshal_no_body` (body codec = C01's code model): no signature (or the empty one) and no descriptors handed
 in; or a non-empty signature `renderAll ts` with a body in C01's domain and either `oobFDs=[]` (method calls: the
 descriptor arguments of the body are, in wire order, `ds`) or `oobFDs=None` (any constructor; no descriptor
 argument, `ds = []`). -/
 def SentFdOK (T : Tables) (na : Char → Bool) (maxLen fuel : Nat) (x : SentFd) : Prop :=
-  ∃ (st st' : Msg.St) (c : Call PyVal), 1 ≤ st.nextSerial ∧
-    construct T (wireCodec fuel) na maxLen st c = (st', .ok x.msg) ∧
-    (((c.signature = none ∨ c.signature = some []) ∧ (c.oob = none ∨ c.oob = some []) ∧
+  ∃ (st st' : Msg.St), 1 ≤ st.nextSerial ∧
+    construct T (wireCodec fuel) na maxLen st x.call = (st', .ok x.msg) ∧
+    (((x.call.signature = none ∨ x.call.signature = some []) ∧ (x.call.oob = none ∨ x.call.oob = some []) ∧
         x.ds = [] ∧ x.ts = [] ∧ x.vs = [] ∧ x.items = []) ∨
      ∃ (pv : PyVal) (bs : Bytes),
-       c.signature = some (renderAll x.ts) ∧ renderAll x.ts ≠ [] ∧ c.body = some pv ∧ allWF x.ts = true ∧
+       x.call.signature = some (renderAll x.ts) ∧ renderAll x.ts ≠ [] ∧ x.call.body = some pv ∧ allWF x.ts = true ∧
        Code.topItems pv = .ok x.items ∧ Code.KeysOKList x.items ∧
        Spec.encodeAll Code.genAlign (Txdbus.endianOf true) x.ts x.vs 0 = some bs ∧ depthAll x.vs ≤ fuel ∧
-       ((c.oob = some [] ∧ Code.RepFields (x.ds.map fdVal) x.vs true x.ts x.items 0 x.ds.length) ∨
-        (c.oob = none ∧ x.ds = [] ∧ ∃ lall, Code.RepFields lall x.vs false x.ts x.items 0 0)))
+       ((x.call.oob = some [] ∧ Code.RepFields (x.ds.map fdVal) x.vs true x.ts x.items 0 x.ds.length) ∨
+        (x.call.oob = none ∧ x.ds = [] ∧ ∃ lall, Code.RepFields lall x.vs false x.ts x.items 0 0)))
 
 theorem sigNoNul_of_sentFdOK {ts : List Ty} {c : Call PyVal}
     (h : (c.signature = none ∨ c.signature = some []) ∨ c.signature = some (renderAll ts)) :
@@ -508,7 +510,8 @@ theorem sigNoNul_of_sentFdOK {ts : List Ty} {c : Call PyVal}
 /-- The descriptors of the sender model's message are the descriptors attached. -/
 theorem sentFd_leaves (T : Tables) (na : Char → Bool) (maxLen fuel : Nat) (x : SentFd)
     (h : SentFdOK T na maxLen fuel x) : fdLeavesL x.body = x.ds := by
-  obtain ⟨st, st', c, _, _, hcase⟩ := h
+  obtain ⟨st, st', _, _, hcase⟩ := h
+  generalize x.call = c at hcase
   rcases hcase with ⟨_, _, hds, hts, hvs, _⟩ | ⟨pv, bs, _, _, _, _, _, _, _, _, hoob⟩
   · simp [SentFd.body, hds, hvs, bvOfFields, fdLeavesL]
   · rcases hoob with ⟨_, hrep⟩ | ⟨_, hds, lall, hrep⟩
@@ -537,7 +540,8 @@ theorem info_of_sent (T : Tables) (hT : T.OK) (na : Char → Bool) (maxLen fuel 
       ⟨if x.ds.isEmpty then none else some x.ds.length, List.range x.ds.length⟩ := by
     simp [callRemote, marshalMsg, marshalBVs_spec, hl, List.range_eq_range']
   rw [hsend]
-  obtain ⟨st, st', c, hs, hc, hcase⟩ := h
+  obtain ⟨st, st', hs, hc, hcase⟩ := h
+  generalize x.call = c at hc hcase
   rcases hcase with ⟨hsig, _, hds, _, _, _⟩ | ⟨pv, bs, hsig, hne, hbody, hts, hitems, _, henc, hfuel, hoob⟩
   · rw [info_of_constructed_no_body_gen T hT (wireCodec fuel) na maxLen st st' c x.msg hs hsig hc, hds]; rfl
   · rcases hoob with ⟨hoob, hrep⟩ | ⟨hoob, hds, lall, hrep⟩
@@ -551,7 +555,8 @@ C04 `wellFormed_of_layout`) for a sent message. -/
 theorem wellFormed_of_sentFd (T : Tables) (hT : T.OK) (na : Char → Bool) (maxLen fuel : Nat)
     (hmax : maxLen ≤ Msg.Spec.maxMessage) (x : SentFd) (h : SentFdOK T na maxLen fuel x) :
     Spec.WellFormed x.msg.raw := by
-  obtain ⟨st, st', c, hs, hc, hcase⟩ := h
+  obtain ⟨st, st', hs, hc, hcase⟩ := h
+  generalize x.call = c at hc hcase
   have hsig : Msg.Main.SigNoNul c := by
     apply sigNoNul_of_sentFdOK (ts := x.ts)
     rcases hcase with ⟨hsig, _⟩ | ⟨_, _, hsig, _⟩
@@ -579,7 +584,8 @@ own descriptors - whatever follows them (early arrivals of later messages) - ret
 theorem parsedAs_of_sent (T : Tables) (hT : T.OK) (na : Char → Bool) (maxLen fuel : Nat) (x : SentFd)
     (h : SentFdOK T na maxLen fuel x) (rest : List Nat) :
     ParsedAs x (parseMessage T (wireCodec fuel) x.msg.raw (some ((x.ds ++ rest).map fdVal))) := by
-  obtain ⟨st, st', c, hs, hc, hcase⟩ := h
+  obtain ⟨st, st', hs, hc, hcase⟩ := h
+  generalize x.call = c at hc hcase
   rcases hcase with ⟨hsig, _, _, hts, _, _⟩ | ⟨pv, bs, hsig, hne, hbody, hts, hitems, hkeys, henc, hfuel, hoob⟩
   · obtain ⟨m', p1, p2, p3, p4, p5, p6, p7, _⟩ :=
       Msg.parse_marshal_no_body_gen T hT na maxLen st st' c x.msg hs fuel (some ((x.ds ++ rest).map fdVal)) hsig hc
@@ -615,7 +621,8 @@ theorem parsedAs_of_sent (T : Tables) (hT : T.OK) (na : Char → Bool) (maxLen f
 theorem sent_unixFds (T : Tables) (hT : T.OK) (na : Char → Bool) (maxLen fuel : Nat) (x : SentFd)
     (h : SentFdOK T na maxLen fuel x) :
     x.msg.attrs .unixFds = if x.ds.isEmpty then PyVal.none else PyVal.int .plain (x.ds.length : Nat) := by
-  obtain ⟨st, st', c, hs, hc, hcase⟩ := h
+  obtain ⟨st, st', hs, hc, hcase⟩ := h
+  generalize x.call = c at hc hcase
   rcases hcase with ⟨hsig, _, hds, _, _, _⟩ | ⟨pv, bs, hsig, hne, hbody, hts, hitems, _, henc, hfuel, hoob⟩
   · obtain ⟨sm, hb⟩ := Msg.construct_ok T hT (wireCodec fuel) na maxLen st st' c x.msg hc
     have hps : c.pre.attrs .signature = Msg.strAttr c.signature := Msg.Main.pre_signature c
@@ -763,6 +770,33 @@ theorem mapM_fdNat (ds : List Nat) : (ds.map fdVal).mapM fdNat? = some ds := by
     simp only [List.map_cons, List.mapM_cons, ih]
     simp [fdVal, fdNat?]
 
+theorem sender_sends_constructed_gen (a : Msg.CallArgs PyVal) (ts : List Ty) (pv : PyVal) (items : List PyVal)
+    (vs : List Val) (ds : List Nat) (bs : Bytes) (fuel : Nat)
+    (hsig : a.signature = some (renderAll ts)) (hne : renderAll ts ≠ []) (hbody : a.body = some pv)
+    (hoob : a.oobFDs = some []) (hitems : Code.topItems pv = .ok items)
+    (hrep : Code.RepFields (ds.map fdVal) vs true ts items 0 ds.length)
+    (henc : Spec.encodeAll Code.genAlign (Txdbus.endianOf true) ts vs 0 = some bs) (hfuel : depthAll vs ≤ fuel) :
+    oobAfter fuel a = some (ds.map fdVal) ∧
+    sendConstructed (oobAfter fuel a) = some (callRemote true (bvOfFields ds vs ts)).2 := by
+  have hm : Code.marshal fuel (renderAll ts) pv 0 true (some []) = .ok (bs.length, bs, some (ds.map fdVal)) := by
+    have h' := Code.marshal_eq_spec Code.genAlign Code.padOK_gen Code.genAlign_pos true ts pv items vs (ds.map fdVal)
+      ds.length 0 bs fuel hitems hrep henc hfuel
+    rw [h', List.take_of_length_le (by simp)]
+  have ho : oobAfter fuel a = some (ds.map fdVal) := by
+    unfold oobAfter
+    rw [hsig]
+    cases hr : renderAll ts with
+    | nil => exact absurd hr hne
+    | cons ch cs =>
+      simp only [wireCodec, hbody, hoob, Option.getD_some]
+      rw [← hr, hm]
+  have hl : fdLeavesL (bvOfFields ds vs ts) = ds := by
+    simpa using bvOfFields_of_rep ds vs true ts items 0 ds.length hrep
+  refine ⟨ho, ?_⟩
+  rw [ho]
+  simp only [sendConstructed, Option.getD_some, mapM_fdNat]
+  simp [callRemote, marshalMsg, sendMessage, marshalBVs_spec, hl]
+
 /-- the sender's own transport calls as receiver events -/
 def senderEvs (xs : List SentFd) : List Ev :=
   (xs.map (fun x => (callRemote true x.body).2.map (toEv x.msg.raw))).flatten
@@ -775,6 +809,207 @@ theorem construct_shape20 {T : Tables} {C : BodyCodec PyVal} {na : Char → Bool
     cases r with
     | error e => rw [hr] at hok; cases hok
     | ok m => exact ⟨st', m, rfl⟩
+
+
+section Literal
+variable {α : Type}
+
+/-! ### The literal receiver (descriptor events + `Receive.handleFrame`) follows the abstract one -/
+
+/-- `handleFrame` on the queue of the delivery returns normally and leaves the delivery's `queueAfter`. -/
+def Agrees (T : Tables) (fuel : Nat) (d : Delivery) : Prop :=
+  ∃ h m', Receive.handleFrame T (wireCodec fuel) (d.queueBefore.map fdVal) d.raw = .ok (h, m', d.queueAfter.map fdVal)
+
+/-- the hook call the literal receiver makes for a delivery -/
+def litCallOf (T : Tables) (fuel : Nat) (d : Delivery) : LitCall :=
+  (Receive.handleFrame T (wireCodec fuel) (d.queueBefore.map fdVal) d.raw).map (fun r => (r.1, r.2.1))
+
+theorem litDeliverAll_sim (T : Tables) (fuel : Nat) (info : Bytes → MsgInfo) :
+    ∀ (raws : List Bytes) (q : List Nat), (∀ d ∈ (deliverAll info q raws).2, Agrees T fuel d) →
+      litDeliverAll T fuel (q.map fdVal) raws =
+        ((deliverAll info q raws).1.map fdVal, (deliverAll info q raws).2.map (litCallOf T fuel), false)
+  | [], q, _ => by simp [litDeliverAll, deliverAll]
+  | raw :: t, q, h => by
+    simp only [deliverAll] at h ⊢
+    obtain ⟨hk, m', hh⟩ := h (deliver info q raw).2 (by simp)
+    have e1 : (deliver info q raw).2.queueBefore = q := rfl
+    have e2 : (deliver info q raw).2.raw = raw := rfl
+    have e3 : (deliver info q raw).2.queueAfter = (deliver info q raw).1 := rfl
+    rw [e1, e2, e3] at hh
+    have ih := litDeliverAll_sim T fuel info t (deliver info q raw).1 (fun d hd => h d (by simp [hd]))
+    simp only [litDeliverAll, hh, ih, List.map_cons]
+    simp [litCallOf, e1, e2, hh, Except.map]
+
+theorem litRecvRun_sim (T : Tables) (fuel : Nat) (A : Auth α) (info : Bytes → MsgInfo) :
+    ∀ (evs : List Ev) (r : Recv α), (∀ d ∈ (recvRun A info r evs).2, Agrees T fuel d) →
+      litRecvRun T fuel A ⟨r.st, r.queue.map fdVal, false⟩ evs =
+        (⟨(recvRun A info r evs).1.st, (recvRun A info r evs).1.queue.map fdVal, false⟩,
+         (recvRun A info r evs).2.map (litCallOf T fuel))
+  | [], r, _ => by simp [litRecvRun, recvRun]
+  | .fd n :: es, r, h => by
+    simp only [recvRun, recvEv, List.nil_append] at h ⊢
+    have ih := litRecvRun_sim T fuel A info es ⟨r.st, r.queue ++ [n]⟩ h
+    simp only [List.map_append, List.map_cons, List.map_nil] at ih
+    simp [litRecvRun, litRecvEv, ih]
+  | .read d :: es, r, h => by
+    simp only [recvRun, recvEv] at h ⊢
+    have h1 : ∀ x ∈ (deliverAll info r.queue (msgsOf (step A r.st d).2)).2, Agrees T fuel x :=
+      fun x hx => h x (by simp [hx])
+    have s1 := litDeliverAll_sim T fuel info (msgsOf (step A r.st d).2) r.queue h1
+    have ih := litRecvRun_sim T fuel A info es
+      ⟨(step A r.st d).1, (deliverAll info r.queue (msgsOf (step A r.st d).2)).1⟩ (fun x hx => h x (by simp [hx]))
+    simp only [litRecvRun, litRecvEv, s1, Bool.false_eq_true, if_false, ih, List.map_append]
+
+theorem agrees_of_parsedFrom (T : Tables) (fuel : Nat) :
+    ∀ (xs : List SentFd) (ds : List Delivery), ParsedFrom T fuel xs ds → ∀ d ∈ ds, Agrees T fuel d
+  | _, [], _ => by simp
+  | [], _ :: _, h => by simp [ParsedFrom] at h
+  | x :: t, d :: ds, h => by
+    simp only [ParsedFrom] at h
+    obtain ⟨_, _, _, _, ⟨m', _, hh⟩, hrest⟩ := h
+    intro d' hd'
+    simp only [List.mem_cons] at hd'
+    rcases hd' with rfl | hd'
+    · exact ⟨_, m', hh⟩
+    · exact agrees_of_parsedFrom T fuel t ds hrest d' hd'
+
+/-! ### The code-level sender for a sent message -/
+
+theorem call_oob_some {c : Call PyVal} {l : List PyVal} (h : c.oob = some l) : ∃ a, c = .methodCall a := by
+  cases c with
+  | methodCall a => exact ⟨a, rfl⟩
+  | methodReturn a => cases h
+  | error a => cases h
+  | signal a => cases h
+
+/-- `sendMessage` on the message object of a sent message (`sendOfCall`: `oobAfter` + `sendConstructed` of the code
+model) makes exactly the transport calls of the sender model of Proto/Fds.lean - in all three branches of `SentFdOK`. -/
+theorem sendOfCall_sent (T : Tables) (na : Char → Bool) (maxLen fuel : Nat) (x : SentFd)
+    (h : SentFdOK T na maxLen fuel x) : sendOfCall fuel x.call = some (callRemote true x.body).2 := by
+  have hl := sentFd_leaves T na maxLen fuel x h
+  obtain ⟨st, st', hs, hc, hcase⟩ := h
+  generalize x.call = c at hc hcase
+  rcases hcase with ⟨hsig, hoob, hds, _, _, _⟩ | ⟨pv, bs, hsig, hne, hbody, hts, hitems, _, henc, hfuel, hoob⟩
+  · have hw : (callRemote true x.body).2 = [SendEv.write] := by
+      simp [callRemote, marshalMsg, sendMessage, marshalBVs_spec, hl, hds]
+    rw [hw]
+    cases c with
+    | methodCall a =>
+      have ho : oobAfter fuel a = a.oobFDs := by
+        unfold oobAfter
+        rcases hsig with h0 | h0 <;> simp only [Call.signature] at h0 <;> rw [h0]
+      simp only [sendOfCall, ho]
+      rcases hoob with h0 | h0 <;> simp only [Call.oob] at h0 <;> rw [h0] <;> rfl
+    | methodReturn a => rfl
+    | error a => rfl
+    | signal a => rfl
+  · rcases hoob with ⟨hoob, hrep⟩ | ⟨hoob, hds, lall, hrep⟩
+    · obtain ⟨a, rfl⟩ := call_oob_some hoob
+      exact (sender_sends_constructed_gen a x.ts pv x.items x.vs x.ds bs fuel hsig hne hbody hoob hitems hrep henc
+        hfuel).2
+    · have hw : (callRemote true x.body).2 = [SendEv.write] := by
+        simp [callRemote, marshalMsg, sendMessage, marshalBVs_spec, hl, hds]
+      rw [hw]
+      cases c with
+      | methodCall a =>
+        have hm := Msg.marshal_eq_spec_none true x.ts pv x.items x.vs lall 0 0 0 bs fuel hitems hrep henc hfuel
+        have ho : oobAfter fuel a = none := by
+          unfold oobAfter
+          simp only [Call.signature, Call.body, Call.oob] at hsig hbody hoob
+          rw [hsig]
+          cases hr : renderAll x.ts with
+          | nil => exact absurd hr hne
+          | cons ch cs =>
+            simp only [wireCodec, hbody, hoob, Option.getD_some]
+            rw [← hr, hm]
+        simp only [sendOfCall, ho]; rfl
+      | methodReturn a => rfl
+      | error a => rfl
+      | signal a => rfl
+
+
+/-- The receiver events caused by the CODE-level sender: for every message the transport calls of `sendMessage` on the
+message object its constructor call made (`sendOfCall`: `oobAfter` + `sendConstructed`), nothing reordered. -/
+def senderEvsCode (fuel : Nat) (xs : List SentFd) : List Ev :=
+  (xs.map (fun x => ((sendOfCall fuel x.call).getD []).map (toEv x.msg.raw))).flatten
+
+theorem senderEvsCode_eq (T : Tables) (na : Char → Bool) (maxLen fuel : Nat) (xs : List SentFd)
+    (hxs : ∀ x ∈ xs, SentFdOK T na maxLen fuel x) : senderEvsCode fuel xs = senderEvs xs := by
+  unfold senderEvsCode senderEvs
+  congr 1
+  apply List.map_congr_left
+  intro x hx
+  rw [sendOfCall_sent T na maxLen fuel x (hxs x hx)]
+  rfl
+
+theorem bytesOf_map_read (reads : List Bytes) : bytesOf (reads.map Ev.read) = reads.flatten := by
+  induction reads with
+  | nil => rfl
+  | cons d t ih => simp [bytesOf, ih]
+
+theorem fdsOf_map_read (reads : List Bytes) : fdsOf (reads.map Ev.read) = [] := by
+  induction reads with
+  | nil => rfl
+  | cons d t ih => simp [fdsOf, ih]
+
+/-- The schedule "every descriptor before the first byte" (what `recv-deep-queue` generates): all descriptors of all
+messages arrive first, then the bytes, cut into reads anywhere - an event sequence the environment allows. -/
+theorem earliest_consistent (ms : List Msg) (reads : List Bytes) (hlen : ∀ m ∈ ms, 16 ≤ m.raw.length)
+    (hr : reads.flatten = bytesUpTo ms ms.length) :
+    Consistent ms ((fdsUpTo ms ms.length).map Ev.fd ++ reads.map Ev.read) := by
+  have hb := bytesOf_map_read reads
+  have hf := fdsOf_map_read reads
+  refine ⟨?_, ?_, ?_⟩
+  · rw [bytesOf_append, bytesOf_map_fd, List.nil_append, hb, hr]; exact List.prefix_refl _
+  · rw [fdsOf_append, fdsOf_map_fd, hf, List.append_nil]; exact List.prefix_refl _
+  · intro p hp k hk hle
+    have hpre : fdsUpTo ms k <+: fdsUpTo ms ms.length := by
+      rw [fdsUpTo_all ms k]; exact List.prefix_append _ _
+    rcases prefix_append_cases p _ _ hp with h1 | ⟨q2, rfl, _⟩
+    · obtain ⟨u, hu⟩ := h1
+      have hbp : bytesOf p = [] := by
+        have := congrArg bytesOf hu
+        rw [bytesOf_append, bytesOf_map_fd] at this
+        exact (List.append_eq_nil_iff.1 this).1
+      rw [hbp] at hle
+      cases k with
+      | zero => simp [fdsUpTo]
+      | succ k =>
+        exfalso
+        cases ms with
+        | nil => simp at hk
+        | cons m t =>
+          have hm := hlen m (by simp)
+          have e : bytesUpTo (m :: t) (k + 1) = m.raw ++ bytesUpTo t k := by simp [bytesUpTo]
+          rw [e] at hle
+          simp only [List.length_append, List.length_nil] at hle
+          omega
+    · rw [fdsOf_append, fdsOf_map_fd]
+      have := hpre.length_le
+      simp only [List.length_append]
+      omega
+
+/-- `cs` are the hook calls for the first messages of `xs`, in order: each is the call of the hook of the message's type
+with a message that is the one sent (`ParsedAs`). -/
+def LitFrom (T : Tables) : List SentFd → List LitCall → Prop
+  | _, [] => True
+  | [], _ :: _ => False
+  | x :: t, c :: cs =>
+    (∃ m', c = .ok (Receive.hookOfType (T.messageType m'.cls), m') ∧ ParsedAs x (.ok m')) ∧ LitFrom T t cs
+
+/-- What the hooks of the literal receiver are handed, delivery by delivery. -/
+theorem litCalls_of_parsedFrom (T : Tables) (fuel : Nat) :
+    ∀ (xs : List SentFd) (ds : List Delivery), ParsedFrom T fuel xs ds → LitFrom T xs (ds.map (litCallOf T fuel))
+  | _, [], _ => by simp [LitFrom]
+  | [], _ :: _, h => by simp [ParsedFrom] at h
+  | x :: t, d :: ds, h => by
+    simp only [ParsedFrom] at h
+    obtain ⟨_, _, _, hpa, ⟨m', hp, hh⟩, hrest⟩ := h
+    simp only [List.map_cons, LitFrom]
+    refine ⟨⟨m', ?_, by rw [← hp]; exact hpa⟩, litCalls_of_parsedFrom T fuel t ds hrest⟩
+    simp [litCallOf, hh, Except.map]
+
+end Literal
 
 /-- `RepFields` for the body `[7, 7]` of signature `hh` (the instance in Properties/C20.lean). -/
 theorem exFd_rep : Code.RepFields ([7, 7].map fdVal) [.int 0, .int 1] true [.basic .h, .basic .h]
